@@ -104,9 +104,13 @@ Print Assumptions C07_wait_timeout_carried.
 (* ---- dispatch_group_notify ---- *)
 (* every notification is submitted AT MOST once and only if it was registered.  Exactly once: every registered notification is
    in exactly one place (C07_notify_accounted: listed, detached by one thread that is submitting, or submitted once); at
-   quiescence every registered notification has been submitted exactly once (C07_quiescent_state); in between, the thread that
-   holds the list always has an enabled step that moves it forward and its submit loop is bounded by the list
-   (C07_no_stuck, C07_submit_loop_bounded): every registered notification is submitted unless a thread stops being scheduled *)
+   quiescence every registered notification has been submitted exactly once (C07_quiescent_state).  NO LIVENESS IS PROVED: in
+   between, the thread that holds the list always has SOME enabled step and one of them moves it forward (C07_no_stuck), and its
+   submit loop is bounded by the list (C07_submit_loop_bounded); but the spin on a NULL dg_notify_head is in the model as a
+   self-loop that is enabled in every state (Group.tstep PSnapHead accepts a NULL load and stays; the head value is not part of
+   the state), so the model has fair infinite runs in which a registered notification is never submitted; that the first pusher
+   stores the head before HAS_NOTIFS is set (program order in _dispatch_group_notify), so that the real spin ends, is argued
+   from the source, not proved; the spin on do_next of a lagging pusher is not a step of the model at all *)
 Theorem C07_notify_at_most_once : forall s i, reach s ->
   0 <= fcnt s i <= 1 /\ (fcnt s i = 1 -> 0 <= i < nreg s).
 Proof. exact (fun s i R => exactly_once s i R). Qed.
@@ -186,8 +190,9 @@ Theorem C07_no_trap_state : forall s t, reach s -> pcs s t <> PCrash.
 Proof. exact no_crash_state. Qed.
 Print Assumptions C07_no_trap_state.
 (* no thread inside a library call is ever stuck: it has an enabled step in every reachable state (a thread asleep in
-   futex_wait may always return); the two exceptions are the client contract.  For the thread that holds the notify list the
-   step constructed in the proof is the one that moves it forward *)
+   futex_wait may always return); the two exceptions are the client contract.  This is deadlock freedom per thread, not
+   termination: the step constructed in the proof for the thread that holds the notify list is the forward one, but the NULL
+   reload of dg_notify_head (PSnapHead) and the retry of the rmw / clearing loops are also enabled *)
 Theorem C07_no_stuck : forall s t, reach s ->
   (pcs s t = PEnter -> fv (word s) <> 1) -> (pcs s t = PLeave -> fv (word s) <> 0) ->
   exists e s', gstep s t e = Some s'.
